@@ -9,6 +9,8 @@ STRING_VARS = {
     "sys_platform": ["linux", "linux2", "win32", "darwin", "win", "linux darwin", "beos", "aix"],
     "platform_machine": ["x86_64", "arm64", "x86", "x86_64 arm64"],
     "implementation_name": ["cpython", "pypy", "py"],
+    # a string variable whose values look like versions (Windows: platform_version is "10.0.19045"): compared as strings, not as versions
+    "platform_version": ["10.0", "10.0.0", "10.0.19045", "#1 SMP"],
 }
 STRING_OPS = ["==", "!=", "in", "not in"]
 ENV_STRINGS = {
@@ -16,6 +18,7 @@ ENV_STRINGS = {
     "sys_platform": ["linux", "linux2", "win32", "darwin", "win", "beos"],
     "platform_machine": ["x86_64", "arm64", "x86"],
     "implementation_name": ["cpython", "pypy"],
+    "platform_version": ["10.0.0", "10.0", "#1 SMP"],
 }
 PY_VERSIONS = ["2.7.18", "3.0.0", "3.1.4", "3.4.0", "3.5.2", "3.6.0", "3.7.9", "3.8.0", "3.8.5", "3.9.0", "3.9.18", "3.10.0", "3.10.4", "3.11.1",
                "3.12.0", "4.0.0"]
@@ -88,7 +91,8 @@ def environments(full=False):
                 continue
             e = {"python_full_version": pv, "python_version": ".".join(pv.split(".")[:2]), "os_name": osn, "sys_platform": sp,
                  "platform_machine": ENV_STRINGS["platform_machine"][(i + j) % 3], "implementation_name": ENV_STRINGS["implementation_name"][(i + j) % 2],
-                 "platform_release": RELEASES[(i + j) % 3], "extra": EXTRA_ENVS[(i + 2 * j) % len(EXTRA_ENVS)]}
+                 "platform_release": RELEASES[(i + j) % 3], "extra": EXTRA_ENVS[(i + 2 * j) % len(EXTRA_ENVS)],
+                 "platform_version": ENV_STRINGS["platform_version"][(i + 2 * j) % 3]}
             envs.append(e)
     return envs
 
